@@ -10,7 +10,9 @@ import (
 	"fmt"
 	"math/big"
 	"os"
+	"runtime"
 	"strings"
+	"sync"
 
 	. "verif/harness/kit"
 
@@ -932,6 +934,125 @@ func run(args []string) error {
 		}
 	}
 	hist.Add(fmt.Sprintf("limb-boundary=%d", len(caseJSON["limb"])))
+
+	// ---- concurrency: the same recover / verify / ECDH / sign+verify calls sequentially (these results are also
+	//      compared with the model) and then from many goroutines at once; every concurrent result must equal
+	//      the sequential one.  Run-time check on the implementation: shared scratch state and data races are
+	//      invisible to the functional model.
+	{
+		if runtime.GOMAXPROCS(0) < 4 {
+			runtime.GOMAXPROCS(4)
+		}
+		type task struct {
+			op   string
+			args []string
+			f    func() string
+		}
+		var tasks []task
+		nT := 48
+		for j := 0; j < nT; j++ {
+			d, k := g.validKey(), g.validKey()
+			m := g.rand256()
+			_, sg, _ := lowSign(d, m, k)
+			if sg.r == nil {
+				continue
+			}
+			pk := pubOf(d)
+			msg := b32(m)
+			sb := sg.bytes()
+			switch j % 4 {
+			case 0:
+				recid := sg.recid
+				tasks = append(tasks, task{"recover", []string{hx(msg), hx(sb)}, func() string {
+					rec, code := secp.RecoverPublicKey(sb[:64], msg, recid)
+					if rec == nil {
+						return fmt.Sprintf("%d nil", code)
+					}
+					return fmt.Sprintf("%d %s", code, hx(rec))
+				}})
+			case 1:
+				tasks = append(tasks, task{"vsig", []string{hx(msg), hx(sb), hx(pk)}, func() string {
+					return fmt.Sprint(secp256k1.VerifySignature(msg, sb, pk))
+				}})
+			case 2:
+				k2 := g.validKey()
+				kb := b32(k2)
+				tasks = append(tasks, task{"ecdh", []string{hx(pk), hn(k2)}, func() string {
+					out := secp256k1.ECDH(pk, kb)
+					if out == nil {
+						return "nil"
+					}
+					return hx(out)
+				}})
+			case 3:
+				r, sv := sg.r, sg.s
+				tasks = append(tasks, task{"verify", []string{hx(pk), hn(m), hn(r), hn(sv)}, func() string {
+					var xy secp.XY
+					if err := xy.ParsePubkey(pk); err != nil {
+						return "badpk"
+					}
+					var sig secp.Signature
+					sig.R.Set(r)
+					sig.S.Set(sv)
+					var mm secp.Number
+					mm.Set(m)
+					if sig.Verify(&xy, &mm) {
+						return "1"
+					}
+					return "0"
+				}})
+			}
+		}
+		safe := func(f func() string) (out string) {
+			defer func() {
+				if r := recover(); r != nil {
+					out = "panic"
+				}
+			}()
+			return f()
+		}
+		seq := make([]string, len(tasks))
+		for i, t := range tasks {
+			seq[i] = safe(t.f)
+			emit("conc", t.op, t.args, seq[i], map[string]interface{}{"kind": "sequential reference"}, true)
+		}
+		workers, roundsC := 12, 6
+		if f.Tier != "quick" {
+			roundsC = 40
+		}
+		bad := 0
+		for round := 0; round < roundsC && bad < 5; round++ {
+			res := make([][]string, workers)
+			var wg sync.WaitGroup
+			for w := 0; w < workers; w++ {
+				wg.Add(1)
+				go func(w int) {
+					defer wg.Done()
+					out := make([]string, len(tasks))
+					for i := range tasks {
+						ti := (i + w*7) % len(tasks) // different workers are in different calls at the same moment
+						out[ti] = safe(tasks[ti].f)
+					}
+					res[w] = out
+				}(w)
+			}
+			wg.Wait()
+			for w := 0; w < workers && bad < 5; w++ {
+				for i := range tasks {
+					if res[w][i] != seq[i] {
+						bad++
+						emit("conc", "nop", []string{"-"}, "-", map[string]interface{}{
+							"kind": "concurrent", "concurrent_equal": "no", "call": tasks[i].op + " " + strings.Join(tasks[i].args, " "),
+							"sequential": seq[i], "concurrent": res[w][i], "goroutines": workers, "round": round}, true)
+						break
+					}
+				}
+			}
+		}
+		emit("conc", "nop", []string{"-"}, "-", map[string]interface{}{"kind": "concurrent summary", "concurrent_equal": map[bool]string{true: "yes", false: "no"}[bad == 0],
+			"calls": len(tasks), "goroutines": workers, "rounds": roundsC, "gomaxprocs": runtime.GOMAXPROCS(0)}, true)
+		hist.Add(fmt.Sprintf("concurrent:%d calls x %d goroutines x %d rounds:mismatches=%d", len(tasks), workers, roundsC, bad))
+	}
 
 	// ---- chosen raw s: for key d and nonce k the message m = s0*k - r*d makes the un-normalised s equal to a
 	//      chosen s0, placed on the thresholds of every comparison in Sign / Verify / Recover
